@@ -1,4 +1,5 @@
 import JsonPathVerif.Lex.Int
+import JsonPathVerif.Lex.Names
 import JsonPathVerif.Parser
 import JsonPathVerif.Validity
 /-! # C06 – every valid RFC 9535 query is accepted (lexical layers proved on the GENERATED grammar)
@@ -19,6 +20,25 @@ theorem C06_partial_int (c : Ctx) (pos : Nat) (r r' : Rest) (h : rfcInt r = some
   have := int_spec c pos r
   rw [h] at this
   cases hi : int_ c pos r with
+  | none => simp [hi] at this
+  | some s => simp [hi] at this; exact ⟨s, rfl, this⟩
+
+/-- layer 4a, completeness: wherever RFC `member-name-shorthand` lexes (any name-first character, incl. every non-ASCII one such
+as U+00A0 or U+2003, then name-chars), the grammar's rule accepts the same lexeme, in every parsing context -/
+theorem C06_partial_shorthand (c : Ctx) (pos : Nat) (r r' : Rest) (h : rfcShorthand r = some r') :
+    ∃ s, member_name_shorthand_ c pos r = some s ∧ s.rest = r' := by
+  have := member_name_shorthand_spec c pos r
+  rw [h] at this
+  cases hi : member_name_shorthand_ c pos r with
+  | none => simp [hi] at this
+  | some s => simp [hi] at this; exact ⟨s, rfl, this⟩
+
+/-- layer 6a, completeness: every RFC `function-name` lexeme is accepted as such -/
+theorem C06_partial_function_name (c : Ctx) (pos : Nat) (r r' : Rest) (h : rfcFunctionName r = some r') :
+    ∃ s, function_name_ c pos r = some s ∧ s.rest = r' := by
+  have := function_name_spec c pos r
+  rw [h] at this
+  cases hi : function_name_ c pos r with
   | none => simp [hi] at this
   | some s => simp [hi] at this; exact ⟨s, rfl, this⟩
 
